@@ -50,6 +50,9 @@ def compare_blocks(w, rep, rule, inst, L, Rm, G, quats, where, what, dcm_inverse
         elif unk is not None:
             if part == "rot" and kind in UNDECIDABLE_ROT:
                 rep.na(rule, name, "rotation block of a %s factor: transcendental/rational identity, not decided (%s)" % (kind, unk))
+            elif kind == "euler" and rule == "C01.inv" and rot_factor(w, G) is not G:
+                # the translation of X^-1 is -R(X^-1) t and the Euler inverse is from_Matrix(R^T): atan2/asin of products
+                rep.na(rule, name, "translation cells of the inverse over an Euler factor go through from_Matrix (atan2/asin): not decided (%s)" % unk)
             else:
                 rep.incomplete(rule, name, "%s: cannot decide, %s" % (what, unk), where=where)
         else:
@@ -87,10 +90,10 @@ def check_group(w, rep, name, G, tier):
     n = w.attr(G, "n_param")
     ms = w.attr(G, "matrix_shape")
     kind = rot_kind(w, G)
-    X, xp = w.fresh(G, "X")
-    Y, yp = w.fresh(G, "Y")
-    Z, zp = w.fresh(G, "Z")
-    quats = quats_of(w, G, xp, yp, zp)
+    X, xp, qx = fresh_on_manifold(w, G, "X")
+    Y, yp, qy = fresh_on_manifold(w, G, "Y")
+    Z, zp, qz = fresh_on_manifold(w, G, "Z")
+    quats = qx + qy + qz
     W = lambda m: w.method_where(G, m)[:2]
 
     # ---- D1 API + shape
